@@ -744,6 +744,57 @@ def rule_iter_arg(text, dropped):
     return text
 
 
+def rule_guard_for_each(text, dropped):
+    """`RECV.iter().map(|A| A.write()).for_each(|mut G| BODY)` (each guard is moved into the closure call and dropped when it
+    returns)  ->  `for A in RECV.iter() { let mut G = A.write(); BODY; }` (same for `.read()` / a non-`mut` parameter). Soft."""
+    n = 0
+    while True:
+        if n > 10:
+            raise SliceError('guard-for-each: too many rewrites')
+        toks, match = _stmt_tokens(text)
+        target = None
+        for i in range(len(toks) - 20):
+            t = [x.text for x in toks[i:i + 16]]
+            if not (t[0] == '.' and t[1] == 'iter' and t[2] == '(' and t[3] == ')' and t[4] == '.' and t[5] == 'map' and t[6] == '('
+                    and t[7] == '|' and toks[i + 8].kind == 'ident' and t[9] == '|' and t[10] == t[8] and t[11] == '.'
+                    and t[12] in ('write', 'read') and t[13] == '(' and t[14] == ')' and t[15] == ')'):
+                continue
+            k = i + 16
+            if not (toks[k].text == '.' and toks[k + 1].text == 'for_each' and toks[k + 2].text == '(' and toks[k + 3].text == '|'):
+                continue
+            close = match[k + 2]
+            b = k + 4
+            params = []
+            while toks[b].text != '|':
+                params.append(toks[b].text)
+                b += 1
+            g = [x for x in params if x != 'mut'][-1]
+            body = text[toks[b].e:toks[close].s]
+            target = (i, close, t[8], t[12], 'mut ' if 'mut' in params else '', g, body)
+            break
+        if target is None:
+            break
+        i, close, a, kind, m, g, body = target
+        r0 = _postfix_start(toks, match, i)
+        recv = text[toks[r0].s:toks[i].s]
+        new = f'for {a} in {recv}.iter() {{ let {m}{g} = {a}.{kind}(); {body}; }}'
+        end = toks[close].e
+        # swallow the statement's `;`
+        rest = text[end:]
+        mm = re.match(r'\s*;', rest)
+        if mm:
+            end += mm.end()
+        old = text[toks[r0].s:end]
+        d = old.count('\n') - new.count('\n')
+        if d < 0:
+            raise SliceError('guard-for-each would add lines')
+        text = text[:toks[r0].s] + new + '\n' * d + text[end:]
+        n += 1
+    if n:
+        dropped.append(('guard-for-each', f'{n}x `.iter().map(|s| s.write()).for_each(|mut g| ..)` written as a for loop with a guard binding'))
+    return text
+
+
 def rule_lock_scope(text, dropped):
     """Make the lifetime of a shard-lock guard explicit and count it in the ghost variable `verif_locks`.
        `RECV.write().with(|mut NAME| BODY)`  ->  `{ let mut NAME = RECV.verif_lock_write(); proof { verif_locks = verif_locks + 1; }
@@ -889,6 +940,7 @@ RULES = {
     'iter-reduce': rule_iter_reduce,
     'handle-ctor': rule_handle_ctor,
     'iter-arg': rule_iter_arg,
+    'guard-for-each': rule_guard_for_each,
 }
 
 
